@@ -7,7 +7,7 @@ from ..common import chunks, exc_name, generic_replay, pool_map
 RULE = ('histories (<= 14 ops) of send / receive / poll / for-loop / iter_pending / close / with-exit on a scripted device double '
         '(autoreset on/off; optionally a device that stops accepting sends after k messages), EchoPort and MultiPort over such ports, with ports.sleep replaced by a counter that reports a hang; '
         'exhaustively every position of the device closing itself relative to 0..3 arrivals and 0..3 queued messages; outcome of every '
-        'op and the final device log compared with the model. Distinct by (port setup, op list); non-trivial = at least one op '
+        'op and the final device log compared with the model; two real threads (one waiting in a blocking receive / for-loop on an idle device, Echo or Multi port, the other closing the port or sending) under a 2 s watchdog. Distinct by (port setup, op list); non-trivial = at least one op '
         'after a close or an environment step that closes')
 
 
@@ -204,6 +204,74 @@ def run_multi(case):
     return lines, fail
 
 
+def concurrent_case(kind, action):
+    """Two real threads: one waits in a blocking receive() / a for-loop on an idle port, the other closes the port or
+    makes a message deliverable.  The waiting call must end promptly (2 s watchdog)."""
+    import threading
+    import time
+    import mido.ports as P
+    old_sleep = P.sleep
+    P.sleep = lambda: time.sleep(0.002)
+    try:
+        Dev = portsim.make_dev_class()
+        if kind == 'multi':
+            kids = [P.EchoPort(), P.EchoPort()]
+            port = P.MultiPort(kids)
+        elif kind == 'echo':
+            port = P.EchoPort()
+            kids = [port]
+        else:
+            port = Dev('d', script=[])
+            kids = []
+        result = {}
+
+        def waiter():
+            try:
+                if action.startswith('iter'):
+                    result['got'] = [portsim.ident(m) for m in port]
+                else:
+                    result['got'] = [portsim.ident(port.receive())]
+            except Exception as e:
+                result['exc'] = e
+        t = threading.Thread(target=waiter, daemon=True)
+        t.start()
+        time.sleep(0.05)
+        if action.endswith('close'):
+            c = threading.Thread(target=port.close, daemon=True)
+            c.start()
+            c.join(2)
+            if c.is_alive():
+                return f'close() called from another thread does not return while a blocking {action.split("_")[0]} waits on the {kind} port'
+            t.join(2)
+            if t.is_alive():
+                return f'the blocking {action.split("_")[0]} on the {kind} port does not end after another thread closed the port'
+            if action.startswith('iter') and 'exc' in result:
+                return f'iteration ended with {type(result["exc"]).__name__} after another thread closed the port'
+            if 'exc' in result and not isinstance(result['exc'], (OSError, ValueError)):
+                return f'receive() raised {type(result["exc"]).__name__} after another thread closed the port'
+        else:
+            if not kids:
+                return None
+            s = threading.Thread(target=lambda: kids[-1].send(portsim.msg_of(77)), daemon=True)
+            s.start()
+            s.join(2)
+            if s.is_alive():
+                return f'send() from another thread does not return while a blocking receive waits on the {kind} port'
+            if action.startswith('iter'):
+                time.sleep(0.1)
+                c = threading.Thread(target=port.close, daemon=True)
+                c.start()
+                c.join(2)
+            t.join(2)
+            if t.is_alive():
+                return f'a blocking {action.split("_")[0]} on the {kind} port did not return although a message became deliverable'
+            if result.get('got') != [77]:
+                return f'the waiting call on the {kind} port ended with {result}'
+        return None
+    finally:
+        P.sleep = old_sleep
+
+
 def _chunk(cs):
     return [run_history(c) for c in cs]
 
@@ -330,6 +398,16 @@ def run(ck):
     model = ck.driver.run(reqs)
     _mask_hang_sleeps(reqs, impl, model, 'lreset')
     ck.compare('ports_seq', reqs, impl, model)
+    for kind in ('dev', 'echo', 'multi'):
+        for action in ('receive_close', 'iter_close', 'receive_send', 'iter_send'):
+            if kind == 'echo' and action.startswith('iter'):
+                continue        # EchoPort.__iter__ is iter_pending: it never waits
+            ck.evaluations += 1
+            ck.count('two_threads:' + action)
+            ck.note_case(('two-threads', kind, action))
+            f = concurrent_case(kind, action)
+            if f:
+                ck.oracle_fail({'two_threads': [kind, action]}, f)
     mres = [r for part in pool_map(_mchunk, list(chunks(multis, 300))) for r in part]
     mreq, mimpl = [], []
     for (specs, ops), (lines, fail) in zip(multis, mres):
@@ -355,6 +433,8 @@ def run(ck):
 
 
 def oracle(case):
+    if 'two_threads' in case:
+        return concurrent_case(*case['two_threads'])
     if 'multi' in case:
         return run_multi((case['multi'], [tuple(o) for o in case['ops']]))[1]
     spec = dict(case['spec'])
